@@ -120,6 +120,33 @@ theorem ppLevel_incl_ok {cfg : Cfg} {fuel : Nat} {n : Name} {o : Out}
       injection h with h
       exact ⟨a, b, ha, hb, h.symm⟩
 
+/-- a successful embed-file form: the target is read twice (`recurse_dependencies`, then
+    `process_embed`) and listed once. -/
+theorem ppLevel_embed_ok {cfg : Cfg} {fuel : Nat} {k : Kind} {n : Nat} {o : Out}
+    (h : ppLevel cfg (fuel + 1) (.embed k n) = .ok o) :
+    ∃ i v, resolveDat cfg.dirs 0 n = some (i, v) ∧
+      o = ⟨[rdE (.dat i n), rdE (.dat i n)], [.dat i n], [.other]⟩ := by
+  simp only [ppLevel, recurseEmbed, processEmbed] at h
+  cases hres : resolveDat cfg.dirs 0 n with
+  | none => simp [hres] at h
+  | some p =>
+    obtain ⟨i, v⟩ := p
+    by_cases hv : embedValid k v = true
+    · simp only [hres, hv, if_true, Out.append, List.append_nil, List.nil_append,
+        List.cons_append] at h
+      injection h with h
+      exact ⟨i, v, rfl, h.symm⟩
+    · simp [hres, hv] at h
+
+theorem ppLevel_embed_fuel {cfg : Cfg} {fuel : Nat} {k : Kind} {n : Nat} :
+    ppLevel cfg (fuel + 1) (.embed k n) ≠ .error .fuel := by
+  simp only [ppLevel, recurseEmbed, processEmbed]
+  cases hres : resolveDat cfg.dirs 0 n with
+  | none => simp
+  | some p =>
+    obtain ⟨i, v⟩ := p
+    by_cases hv : embedValid k v = true <;> simp [hv]
+
 theorem readNew_pseudo {dirs : List Dir} {n : Name} {r : RName} {forms : List Form}
     (h : readNew dirs n = some (r, forms)) (hn : ∀ m, n ≠ .file m) :
     r = .pseudo n ∧ forms = [.other] := by
@@ -141,7 +168,8 @@ theorem ppLevel_ind (cfg : Cfg) {P : Out → Prop} (hE : P Out.empty)
       (∃ r forms, readNew cfg.dirs n = some (r, forms) ∧
         ((∃ sub, P sub ∧ b = ⟨rd r :: sub.reads, sub.listed, sub.forms⟩) ∨ b = ⟨[rd r], [], forms⟩)) →
       P (a.append b))
-    (hEmbed : ∀ i n, P ⟨[⟨.dat i n, true, false⟩], [], [.other]⟩)
+    (hEmbed : ∀ i n v, resolveDat cfg.dirs 0 n = some (i, v) →
+      P ⟨[rdE (.dat i n), rdE (.dat i n)], [.dat i n], [.other]⟩)
     (hLeaf : ∀ f, P ⟨[], [], [f]⟩) :
     ∀ fuel f o, ppLevel cfg fuel f = .ok o → P o := by
   intro fuel
@@ -155,12 +183,8 @@ theorem ppLevel_ind (cfg : Cfg) {P : Out → Prop} (hE : P Out.empty)
     | other => simp only [ppLevel] at h; injection h with h; subst h; exact hLeaf _
     | nested b => simp only [ppLevel] at h; injection h with h; subst h; exact hLeaf _
     | embed k n =>
-      simp only [ppLevel, processEmbed] at h
-      split at h
-      · cases h
-      · split at h
-        · injection h with h; subst h; exact hEmbed _ _
-        · cases h
+      obtain ⟨i, v, hres, rfl⟩ := ppLevel_embed_ok h
+      exact hEmbed i n v hres
     | incl n =>
       obtain ⟨a, b, ha, hb, rfl⟩ := ppLevel_incl_ok h
       refine hIncl n a b ?_ ?_
@@ -173,17 +197,17 @@ theorem ppLevel_ind (cfg : Cfg) {P : Out → Prop} (hE : P Out.empty)
         · exact .inl ⟨sub, hseq forms sub hs, he⟩
         · exact .inr he
 
--- reads that are neither embeds nor inside a nested mod are listed -------------------------------
+-- every read of the preprocessor is a pseudo-file or is listed ----------------------------------
 
 def Good (o : Out) : Prop :=
-  ∀ r ∈ o.reads, r.embed = false → r.nested = false → r.res.isPseudo = true ∨ r.res ∈ o.listed
+  ∀ r ∈ o.reads, r.res.isPseudo = true ∨ r.res ∈ o.listed
 
 theorem good_append (a b : Out) (ha : Good a) (hb : Good b) : Good (a.append b) := by
-  intro r hr he hn
+  intro r hr
   simp only [Out.append, List.mem_append] at hr ⊢
   rcases hr with hr | hr
-  · exact (ha r hr he hn).imp_right .inl
-  · exact (hb r hr he hn).imp_right .inr
+  · exact (ha r hr).imp_right .inl
+  · exact (hb r hr).imp_right .inr
 
 theorem good_ppLevel (cfg : Cfg) : ∀ fuel f o, ppLevel cfg fuel f = .ok o → Good o := by
   apply ppLevel_ind cfg (P := Good)
@@ -191,17 +215,17 @@ theorem good_ppLevel (cfg : Cfg) : ∀ fuel f o, ppLevel cfg fuel f = .ok o → 
   · exact good_append
   · intro n a b ha hb
     obtain ⟨r', forms', hr', hb⟩ := hb
-    intro x hx he hn
+    intro x hx
     simp only [Out.append, List.mem_append] at hx ⊢
     rcases ha with ⟨⟨k, hk⟩, rfl⟩ | ⟨r, forms, sub, hd, hr, hsub, rfl⟩
     · -- a dialect name: only process_include reads, and it reads a pseudo-file
       have hps := readNew_pseudo hr' (fun m e => by rw [hk] at e; cases e)
-      simp only [Out.empty, List.not_mem_nil, false_or, List.nil_append] at hx ⊢
+      simp only [Out.empty, List.not_mem_nil, false_or] at hx ⊢
       rcases hb with ⟨sub, hsub, rfl⟩ | rfl
       · simp only [List.mem_cons] at hx
         rcases hx with rfl | hx
         · left; simp [rd, hps.1, RName.isPseudo]
-        · exact hsub x hx he hn
+        · exact hsub x hx
       · simp only [List.mem_cons, List.not_mem_nil, or_false] at hx
         subst hx; left; simp [rd, hps.1, RName.isPseudo]
     · rw [hr] at hr'
@@ -212,21 +236,21 @@ theorem good_ppLevel (cfg : Cfg) : ∀ fuel f o, ppLevel cfg fuel f = .ok o → 
       · simp only [List.mem_cons] at hx
         rcases hx with rfl | hx
         · right; left; simp [rd]
-        · rcases hsub x hx he hn with h | h
+        · rcases hsub x hx with h | h
           · exact .inl h
           · right; left; exact List.mem_cons_of_mem _ h
       · rcases hb with ⟨sub', hsub', rfl⟩ | rfl
         · simp only [List.mem_cons] at hx
           rcases hx with rfl | hx
           · right; left; simp [rd]
-          · rcases hsub' x hx he hn with h | h
+          · rcases hsub' x hx with h | h
             · exact .inl h
             · right; right; exact h
         · simp only [List.mem_cons, List.not_mem_nil, or_false] at hx
           subst hx; right; left; simp [rd]
-  · intro i n r hr he
-    simp only [List.mem_cons, List.not_mem_nil, or_false] at hr
-    subst hr; cases he
+  · intro i n v _ r hr
+    simp only [List.mem_cons, List.not_mem_nil, or_false, or_self] at hr
+    subst hr; right; simp [rdE]
   · intro f r hr; cases hr
 
 -- everything listed is a first match, and was read ------------------------------------------------
@@ -251,17 +275,43 @@ theorem resolveSrc_first (dirs : List Dir) (i n j : Nat) (f : List Form)
       | zero => simp at hd''; subst hd''; exact hnone
       | succ k'' => exact hall k'' d'' (by omega) (by simpa using hd'')
 
+theorem resolveDat_first (dirs : List Dir) (i n j : Nat) (v : Bool × Bool)
+    (h : resolveDat dirs i n = some (j, v)) :
+    ∃ k, j = i + k ∧ (∃ d, dirs[k]? = some d ∧ d.dat n = some v) ∧
+      ∀ k' d, k' < k → dirs[k']? = some d → d.dat n = none := by
+  induction dirs generalizing i with
+  | nil => simp [resolveDat] at h
+  | cons d ds ih =>
+    simp only [resolveDat] at h
+    split at h
+    · rename_i f' hf
+      injection h with h; injection h with h1 h2; subst h1 h2
+      exact ⟨0, rfl, ⟨d, rfl, hf⟩, fun k' _ hk => absurd hk (Nat.not_lt_zero _)⟩
+    · rename_i hnone
+      obtain ⟨k, hk, ⟨d', hd', hf'⟩, hall⟩ := ih (i + 1) h
+      refine ⟨k + 1, by omega, ⟨d', by simpa using hd', hf'⟩, ?_⟩
+      intro k' d'' hk' hd''
+      cases k' with
+      | zero => simp at hd''; subst hd''; exact hnone
+      | succ k'' => exact hall k'' d'' (by omega) (by simpa using hd'')
+
+/-- a listed name is a pseudo-file, or the first match of a source file, or the first match of a
+    data file. -/
+def NameOK (cfg : Cfg) (x : RName) : Prop :=
+  x.isPseudo = true ∨ (∃ i n, x = .src i n ∧ FirstMatch cfg.dirs i n) ∨
+    (∃ i n, x = .dat i n ∧ FirstMatchDat cfg.dirs i n)
+
 def ListedOK (cfg : Cfg) (o : Out) : Prop :=
-  ∀ x ∈ o.listed, x.isPseudo = true ∨ ∃ i n, x = .src i n ∧ FirstMatch cfg.dirs i n
+  ∀ x ∈ o.listed, NameOK cfg x
 
 theorem readNew_listedOK {cfg : Cfg} {n : Name} {r : RName} {forms : List Form}
     (h : readNew cfg.dirs n = some (r, forms)) :
-    r.isPseudo = true ∨ ∃ i m, r = .src i m ∧ FirstMatch cfg.dirs i m := by
+    NameOK cfg r := by
   cases n with
   | macros => simp only [readNew] at h; injection h with h; injection h with h1; subst h1; left; rfl
   | dialect k => simp only [readNew] at h; injection h with h; injection h with h1; subst h1; left; rfl
   | file m =>
-    right
+    right; left
     simp only [readNew] at h
     split at h
     · rename_i i f hres
@@ -291,12 +341,19 @@ theorem listedOK_ppLevel (cfg : Cfg) : ∀ fuel f o, ppLevel cfg fuel f = .ok o 
       rcases hb with ⟨sub, hsub, rfl⟩ | rfl
       · exact hsub x hx
       · cases hx
-  · intro i n x hx; cases hx
+  · intro i n v hres x hx
+    simp only [List.mem_cons, List.not_mem_nil, or_false] at hx
+    subst hx
+    right; right
+    obtain ⟨k, hk, hex, hall⟩ := resolveDat_first cfg.dirs 0 n i v hres
+    have : i = k := by omega
+    subst this
+    exact ⟨i, n, rfl, ⟨by obtain ⟨d, h1, h2⟩ := hex; exact ⟨d, v, h1, h2⟩, hall⟩⟩
   · intro f x hx; cases hx
 
-/-- everything listed was read (by a plain, outer-level read). -/
+/-- everything listed was read. -/
 def Back (o : Out) : Prop :=
-  ∀ x ∈ o.listed, ∃ r ∈ o.reads, r.res = x ∧ r.embed = false ∧ r.nested = false
+  ∀ x ∈ o.listed, ∃ r ∈ o.reads, r.res = x
 
 theorem back_append (a b : Out) (ha : Back a) (hb : Back b) : Back (a.append b) := by
   intro x hx
@@ -317,7 +374,7 @@ theorem back_ppLevel (cfg : Cfg) : ∀ fuel f o, ppLevel cfg fuel f = .ok o → 
       · intro x hx
         simp only [List.mem_cons] at hx
         rcases hx with rfl | hx
-        · exact ⟨rd x, List.mem_cons_self .., rfl, rfl, rfl⟩
+        · exact ⟨rd x, List.mem_cons_self .., rfl⟩
         · obtain ⟨r1, h1, h2⟩ := hsub x hx
           exact ⟨r1, List.mem_cons_of_mem _ h1, h2⟩
     have hBb : Back b := by
@@ -327,93 +384,18 @@ theorem back_ppLevel (cfg : Cfg) : ∀ fuel f o, ppLevel cfg fuel f = .ok o → 
         exact ⟨r1, List.mem_cons_of_mem _ h1, h2⟩
       · intro x hx; cases hx
     exact back_append a b hBa hBb
-  · intro i n x hx; cases hx
+  · intro i n v _ x hx
+    simp only [List.mem_cons, List.not_mem_nil, or_false] at hx
+    subst hx
+    exact ⟨rdE (.dat i n), List.mem_cons_self .., rfl⟩
   · intro f x hx; cases hx
 
 -- the frontend ---------------------------------------------------------------------------------
 
-theorem tagNested_false (rs : List Read) : tagNested false rs = rs := by
-  induction rs with
-  | nil => rfl
-  | cons r rs ih =>
-    simp only [tagNested, List.map_cons, Bool.or_false] at ih ⊢
-    rw [ih]
-
-theorem tagNested_true (rs : List Read) : ∀ r ∈ tagNested true rs, r.nested = true := by
-  intro r hr
-  simp only [tagNested, List.mem_map] at hr
-  obtain ⟨r0, _, rfl⟩ := hr
-  simp
-
-theorem compileHelpers_nested {fe : List Form → R}
-    (hfe : ∀ b o, fe b = .ok o → ∀ r ∈ o.reads, r.nested = true) :
-    ∀ fs o, compileHelpers fe fs = .ok o → ∀ r ∈ o.reads, r.nested = true := by
-  intro fs
-  induction fs with
-  | nil => intro o h r hr; simp only [compileHelpers] at h; injection h with h; subst h; cases hr
-  | cons f fs ih =>
-    intro o h
-    cases f with
-    | incl n => simp [compileHelpers] at h
-    | embed k n => simp [compileHelpers] at h
-    | other => simp only [compileHelpers] at h; exact ih o h
-    | nested b =>
-      simp only [compileHelpers] at h
-      split at h
-      · cases h
-      · rename_i a ha
-        split at h
-        · cases h
-        · rename_i c hc
-          injection h with h; subst h
-          intro r hr
-          simp only [List.mem_append] at hr
-          exact hr.elim (hfe b a ha r) (ih c hc r)
-
-theorem frontend_nested (cfg : Cfg) (stdenv : Bool) :
-    ∀ fuel forms o, frontendLevel cfg stdenv fuel true forms = .ok o → ∀ r ∈ o.reads, r.nested = true := by
-  intro fuel
-  induction fuel with
-  | zero => intro forms o h; simp [frontendLevel] at h
-  | succ fuel ih =>
-    intro forms o h
-    simp only [frontendLevel] at h
-    split at h
-    · cases h
-    · rename_i pre hpre
-      split at h
-      · cases h
-      · rename_i sub hsub
-        injection h with h; subst h
-        intro r hr
-        simp only [List.mem_append] at hr
-        rcases hr with hr | hr
-        · exact tagNested_true _ r hr
-        · exact compileHelpers_nested (fun b o hb => ih b o hb) _ sub hsub r hr
-
-/-- shape of a successful outer `frontend` run. -/
-theorem frontend_ok {cfg : Cfg} {stdenv : Bool} {fuel : Nat} {forms : List Form} {o : Out}
-    (h : frontendLevel cfg stdenv fuel false forms = .ok o) :
-    ∃ f pre sub, fuel = f + 1 ∧ preprocess cfg stdenv f forms = .ok pre ∧
-      (∀ r ∈ sub, r.nested = true) ∧ o.reads = pre.reads ++ sub ∧ o.listed = pre.listed := by
-  cases fuel with
-  | zero => simp [frontendLevel] at h
-  | succ f =>
-    simp only [frontendLevel] at h
-    split at h
-    · cases h
-    · rename_i pre hpre
-      split at h
-      · cases h
-      · rename_i sub hsub
-        injection h with h; subst h
-        refine ⟨f, pre, sub.reads, rfl, hpre, ?_, ?_, rfl⟩
-        · exact compileHelpers_nested (fun b o hb => frontend_nested cfg stdenv f b o hb) _ sub hsub
-        · simp [tagNested_false]
-
-/-- what `(include *macros*)` contributes: reads and listings of pseudo-files only. -/
+/-- what `(include *macros*)` contributes: reads and listings of pseudo-files only, one helper. -/
 theorem macros_out {cfg : Cfg} {f : Nat} {m : Out} (h : ppLevel cfg f (.incl .macros) = .ok m) :
-    (∀ x ∈ m.listed, x.isPseudo = true) ∧ (∀ r ∈ m.reads, r.res.isPseudo = true) := by
+    (∀ x ∈ m.listed, x.isPseudo = true) ∧ (∀ r ∈ m.reads, r.res.isPseudo = true) ∧
+      m.forms = [.other] := by
   cases f with
   | zero => simp [ppLevel] at h
   | succ f =>
@@ -427,12 +409,15 @@ theorem macros_out {cfg : Cfg} {f : Nat} {m : Out} (h : ppLevel cfg f (.incl .ma
 theorem preprocess_split {cfg : Cfg} {stdenv : Bool} {f : Nat} {forms : List Form} {pre : Out}
     (h : preprocess cfg stdenv f forms = .ok pre) :
     ∃ (m P : Out), seqForms (ppLevel cfg f) forms = .ok P ∧ pre = m.append P ∧
-      (∀ x ∈ m.listed, x.isPseudo = true) ∧ (∀ r ∈ m.reads, r.res.isPseudo = true) := by
+      (∀ x ∈ m.listed, x.isPseudo = true) ∧ (∀ r ∈ m.reads, r.res.isPseudo = true) ∧
+      (m.forms = [] ∨ m.forms = [.other]) := by
   unfold preprocess at h
   split at h
   · obtain ⟨m, P, hm, hP, rfl⟩ := seqForms_cons_ok h
-    exact ⟨m, P, hP, rfl, macros_out hm⟩
-  · exact ⟨Out.empty, pre, h, by simp [Out.append, Out.empty], by simp [Out.empty], by simp [Out.empty]⟩
+    obtain ⟨h1, h2, h3⟩ := macros_out hm
+    exact ⟨m, P, hP, rfl, h1, h2, .inr h3⟩
+  · exact ⟨Out.empty, pre, h, by simp [Out.append, Out.empty], by simp [Out.empty], by simp [Out.empty],
+      .inl rfl⟩
 
 theorem seq_good (cfg : Cfg) (f : Nat) (forms : List Form) (P : Out)
     (h : seqForms (ppLevel cfg f) forms = .ok P) : Good P ∧ ListedOK cfg P ∧ Back P :=
@@ -445,6 +430,187 @@ theorem seq_good (cfg : Cfg) (f : Nat) (forms : List Form) (P : Out)
       (fun g _ o ho => listedOK_ppLevel cfg f g o ho) P h,
    seqForms_ind (by intro x hx; cases hx) back_append forms
       (fun g _ o ho => back_ppLevel cfg f g o ho) P h⟩
+
+/-- the relation between the reads of one run and the listing of another: every read is a
+    pseudo-file or listed, every listed name is a pseudo-file or was read. -/
+def Rel (rs : List Read) (ls : List RName) : Prop :=
+  (∀ r ∈ rs, r.res.isPseudo = true ∨ r.res ∈ ls) ∧
+  (∀ x ∈ ls, x.isPseudo = true ∨ ∃ r ∈ rs, r.res = x)
+
+theorem rel_nil : Rel [] [] := by
+  constructor
+  · intro r hr; cases hr
+  · intro x hx; cases hx
+
+theorem rel_append {r1 r2 : List Read} {l1 l2 : List RName} (h1 : Rel r1 l1) (h2 : Rel r2 l2) :
+    Rel (r1 ++ r2) (l1 ++ l2) := by
+  constructor
+  · intro r hr
+    simp only [List.mem_append] at hr ⊢
+    rcases hr with hr | hr
+    · exact (h1.1 r hr).imp_right .inl
+    · exact (h2.1 r hr).imp_right .inr
+  · intro x hx
+    simp only [List.mem_append] at hx
+    rcases hx with hx | hx
+    · rcases h1.2 x hx with h | ⟨r, hr, he⟩
+      · exact .inl h
+      · exact .inr ⟨r, List.mem_append_left _ hr, he⟩
+    · rcases h2.2 x hx with h | ⟨r, hr, he⟩
+      · exact .inl h
+      · exact .inr ⟨r, List.mem_append_right _ hr, he⟩
+
+theorem rel_pseudo {mr : List Read} {ml : List RName}
+    (hr : ∀ r ∈ mr, r.res.isPseudo = true) (hl : ∀ x ∈ ml, x.isPseudo = true) : Rel mr ml :=
+  ⟨fun r h => .inl (hr r h), fun x h => .inl (hl x h)⟩
+
+theorem rel_tag {rs : List Read} {ls : List RName} (b : Bool) (h : Rel rs ls) :
+    Rel (tagNested b rs) ls := by
+  constructor
+  · intro r hr
+    simp only [tagNested, List.mem_map] at hr
+    obtain ⟨r0, hr0, rfl⟩ := hr
+    exact h.1 r0 hr0
+  · intro x hx
+    rcases h.2 x hx with hp | ⟨r, hr, he⟩
+    · exact .inl hp
+    · refine .inr ⟨⟨r.res, r.embed, r.nested || b⟩, ?_, he⟩
+      simp only [tagNested, List.mem_map]
+      exact ⟨r, hr, rfl⟩
+
+theorem compileHelpers_other_prefix {fe : List Form → R} {m : List Form}
+    (hm : m = [] ∨ m = [.other]) (fs : List Form) :
+    compileHelpers fe (m ++ fs) = compileHelpers fe fs := by
+  rcases hm with rfl | rfl
+  · rfl
+  · simp [compileHelpers]
+
+theorem compileHelpers_cons_nested_ok {fe : List Form → R} {b : List Form} {fs : List Form} {o : Out}
+    (h : compileHelpers fe (.nested b :: fs) = .ok o) :
+    ∃ a c, fe b = .ok a ∧ compileHelpers fe fs = .ok c ∧
+      o = ⟨a.reads ++ c.reads, a.listed ++ c.listed, []⟩ := by
+  simp only [compileHelpers] at h
+  split at h
+  · cases h
+  · rename_i a ha
+    split at h
+    · cases h
+    · rename_i c hc
+      injection h with h
+      exact ⟨a, c, ha, hc, h.symm⟩
+
+/-- two runs of the helper compiler over the same forms, with nested frontends related by `Rel`. -/
+theorem compileHelpers_rel {fc fg : List Form → R}
+    (hfe : ∀ b oc og, fc b = .ok oc → fg b = .ok og → Rel oc.reads og.listed) :
+    ∀ fs sc sg, compileHelpers fc fs = .ok sc → compileHelpers fg fs = .ok sg →
+      Rel sc.reads sg.listed := by
+  intro fs
+  induction fs with
+  | nil =>
+    intro sc sg hc hg
+    simp only [compileHelpers] at hc hg
+    injection hc with hc; injection hg with hg; subst hc hg
+    exact rel_nil
+  | cons f fs ih =>
+    intro sc sg hc hg
+    cases f with
+    | incl n => simp [compileHelpers] at hc
+    | embed k n => simp [compileHelpers] at hc
+    | other => simp only [compileHelpers] at hc hg; exact ih sc sg hc hg
+    | nested b =>
+      obtain ⟨a, c, ha, hc', rfl⟩ := compileHelpers_cons_nested_ok hc
+      obtain ⟨a', c', ha', hg', rfl⟩ := compileHelpers_cons_nested_ok hg
+      exact rel_append (hfe b a a' ha ha') (ih c c' hc' hg')
+
+theorem compileHelpers_listed {fe : List Form → R} {Q : RName → Prop}
+    (hfe : ∀ b o, fe b = .ok o → ∀ x ∈ o.listed, Q x) :
+    ∀ fs o, compileHelpers fe fs = .ok o → ∀ x ∈ o.listed, Q x := by
+  intro fs
+  induction fs with
+  | nil => intro o h x hx; simp only [compileHelpers] at h; injection h with h; subst h; cases hx
+  | cons f fs ih =>
+    intro o h
+    cases f with
+    | incl n => simp [compileHelpers] at h
+    | embed k n => simp [compileHelpers] at h
+    | other => simp only [compileHelpers] at h; exact ih o h
+    | nested b =>
+      obtain ⟨a, c, ha, hc, rfl⟩ := compileHelpers_cons_nested_ok h
+      intro x hx
+      simp only [List.mem_append] at hx
+      exact hx.elim (hfe b a ha x) (ih c hc x)
+
+/-- shape of a successful `frontend` run. -/
+theorem frontend_ok {cfg : Cfg} {stdenv : Bool} {fuel : Nat} {nst : Bool} {forms : List Form} {o : Out}
+    (h : frontendLevel cfg stdenv fuel nst forms = .ok o) :
+    ∃ f pre sub, fuel = f + 1 ∧ preprocess cfg stdenv f forms = .ok pre ∧
+      compileHelpers (frontendLevel cfg stdenv f true) pre.forms = .ok sub ∧
+      o.reads = tagNested nst pre.reads ++ sub.reads ∧ o.listed = pre.listed ++ sub.listed := by
+  cases fuel with
+  | zero => simp [frontendLevel] at h
+  | succ f =>
+    simp only [frontendLevel] at h
+    split at h
+    · cases h
+    · rename_i pre hpre
+      split at h
+      · cases h
+      · rename_i sub hsub
+        injection h with h; subst h
+        exact ⟨f, pre, sub, rfl, hpre, hsub, rfl, rfl⟩
+
+/-- MAIN LEMMA.  Two frontend runs over the same forms (whatever their `stdenv` settings and
+    nesting flags — the compilation runs with the standard environment, the listing with
+    `stdenv := dialect.strict`): every read of the first is a pseudo-file or is listed by the
+    second, and every name listed by the second is a pseudo-file or is read by the first.  This
+    covers embed-file targets and every level of nested `(mod …)`. -/
+theorem frontend_rel (cfg : Cfg) (s1 s2 : Bool) :
+    ∀ fuel n1 n2 forms oc og, frontendLevel cfg s1 fuel n1 forms = .ok oc →
+      frontendLevel cfg s2 fuel n2 forms = .ok og → Rel oc.reads og.listed := by
+  intro fuel
+  induction fuel with
+  | zero => intro n1 n2 forms oc og h; simp [frontendLevel] at h
+  | succ F ih =>
+    intro n1 n2 forms oc og hc hg
+    obtain ⟨f, pre1, sub1, hf, hpre1, hsub1, hreads, _⟩ := frontend_ok hc
+    obtain ⟨f', pre2, sub2, hf', hpre2, hsub2, _, hlisted⟩ := frontend_ok hg
+    have : f = F := by omega
+    subst this
+    have : f' = f := by omega
+    subst this
+    obtain ⟨m1, P, hP, rfl, _, hm1r, hm1f⟩ := preprocess_split hpre1
+    obtain ⟨m2, P', hP', rfl, hm2l, _, hm2f⟩ := preprocess_split hpre2
+    rw [hP] at hP'; injection hP' with hP'; subst hP'
+    obtain ⟨hgood, _, hback⟩ := seq_good cfg _ forms P hP
+    have hPrel : Rel P.reads P.listed :=
+      ⟨hgood, fun x hx => .inr (hback x hx)⟩
+    simp only [Out.append] at hsub1 hsub2 hreads hlisted
+    rw [compileHelpers_other_prefix hm1f] at hsub1
+    rw [compileHelpers_other_prefix hm2f] at hsub2
+    rw [hreads, hlisted]
+    exact rel_append (rel_tag n1 (rel_append (rel_pseudo hm1r hm2l) hPrel))
+      (compileHelpers_rel (fun b oc og h1 h2 => ih true true b oc og h1 h2) _ sub1 sub2 hsub1 hsub2)
+
+/-- every name a frontend run lists is a pseudo-file or a first match in search-path order. -/
+theorem frontend_listedOK (cfg : Cfg) (s : Bool) :
+    ∀ fuel nst forms o, frontendLevel cfg s fuel nst forms = .ok o → ∀ x ∈ o.listed, NameOK cfg x := by
+  intro fuel
+  induction fuel with
+  | zero => intro nst forms o h; simp [frontendLevel] at h
+  | succ F ih =>
+    intro nst forms o h
+    obtain ⟨f, pre, sub, hf, hpre, hsub, _, hlisted⟩ := frontend_ok h
+    have : f = F := by omega
+    subst this
+    obtain ⟨m, P, hP, rfl, hml, _, _⟩ := preprocess_split hpre
+    obtain ⟨_, hok, _⟩ := seq_good cfg _ forms P hP
+    intro x hx
+    rw [hlisted] at hx
+    simp only [Out.append, List.mem_append] at hx
+    rcases hx with (hx | hx) | hx
+    · exact .inl (hml x hx)
+    · exact hok x hx
+    · exact compileHelpers_listed (fun b o hb => ih true b o hb) _ sub hsub x hx
 
 -- termination ------------------------------------------------------------------------------------
 
@@ -478,11 +644,7 @@ theorem ppLevel_no_fuel (cfg : Cfg) (rk : Nat → Nat) (hrk : Ranked cfg rk) :
     cases f with
     | other => simp [ppLevel]
     | nested b => simp [ppLevel]
-    | embed k n =>
-      simp only [ppLevel, processEmbed]
-      split
-      · simp
-      · split <;> simp
+    | embed k n => exact ppLevel_embed_fuel
     | incl n =>
       -- the forms of the included file never run out of fuel
       have hforms : ∀ r forms, readNew cfg.dirs n = some (r, forms) →
@@ -598,12 +760,8 @@ theorem flat_ppLevel (cfg : Cfg) (hflat : FlatFiles cfg) :
     | other => simp only [ppLevel] at h; injection h with h; subst h; rfl
     | nested b => exact absurd rfl (hf b)
     | embed k n =>
-      simp only [ppLevel, processEmbed] at h
-      split at h
-      · cases h
-      · split at h
-        · injection h with h; subst h; rfl
-        · cases h
+      obtain ⟨i, v, _, rfl⟩ := ppLevel_embed_ok h
+      rfl
     | incl n =>
       obtain ⟨a, b, ha, hb, rfl⟩ := ppLevel_incl_ok h
       have hfa : a.forms = [] := by
